@@ -479,7 +479,9 @@ func runStdlib(x *exec) {
 	// extended value are sampled below; the quick tier's sanitizer slice takes
 	// every 10th call
 	P2 := P
-	if c.Tier == vp.Quick {
+	if c.Tier == vp.Quick || x.variant != "plain" {
+		// (the sanitizer builds are ~5-10x slower: they take the core pool and
+		// a quarter of the samples in the thorough tier)
 		P2 = corePoolSize()
 	}
 	if c.Batch == 0 {
@@ -518,11 +520,14 @@ func runStdlib(x *exec) {
 	// sampled arity 3-4
 	r := c.Rand("stdlib-sampled")
 	n := x.slice(c.Pick(100000, 2000000)) / c.NB
+	if x.variant != "plain" && c.Tier == vp.Thorough {
+		n /= 4
+	}
 	for i := 0; i < n; i++ {
 		fn := fnList[r.Intn(len(fnList))]
 		ar := 3 + r.Intn(2)
-		if c.Tier == vp.Quick && i%2 == 0 {
-			ar = 2 // pairs over the extended pool are sampled in the quick tier
+		if P2 < P && i%2 == 0 {
+			ar = 2 // pairs over the extended pool are sampled where they are not enumerated
 		}
 		args := make([]int, ar)
 		for j := range args {
